@@ -1175,7 +1175,7 @@ func main() {
 		defer pprof.StopCPUProfile()
 	}
 	verifhook.SetHandler(hookHandler)
-	n := f.Count(48, 2500)
+	n := f.Count(48, 2000)
 	root, err := os.MkdirTemp(f.Out, "c06")
 	if err != nil {
 		panic(err)
